@@ -184,6 +184,11 @@ def package_libs(rng, count):
         classes = []
         if rng.random() < 0.8:
             body = rng.choice(["m * P.g + h", "m * g", "P.g - m * P.h", "m + P.Q.k"])
+            if rng.random() < 0.5:
+                # a function that calls another function which the models do not call directly
+                parts.append("  function twice\n    input Real a;\n    output Real b;\n  algorithm\n    b := 2 * a + h;\n  end twice;\n")
+                body = "twice(%s)" % body
+                tags.add("function-calling-another-function")
             parts.append("  function weight\n    input Real m;\n    output Real w;\n  algorithm\n    w := %s;\n  end weight;\n" % body)
             parts.append("  model Ball\n    parameter Real m = %d;\n    Real f;\n  equation\n    f = weight(m);\n  end Ball;\n" % rng.randint(1, 5))
             classes.append("P.Ball")
